@@ -68,8 +68,15 @@ def gen_history(rnd, classes):
         base = GRID + [cls.get_default_value(k) for k in keys] + [cls.get_default_lower_limit(k) for k in keys] + [cls.get_default_upper_limit(k) for k in keys]
         return rnd.choice(base)
 
+    # invalid keys: a made-up one, parameter names of other classes and - for container elements - the names of the class's
+    # own sub-circuits (valid constructor keywords, but not parameters)
+    from pyimpspec.circuit.base import Container
+    bad = ["zz"] + [x for x in ("R", "Y", "n", "tau") if x not in keys][:2]
+    if issubclass(cls, Container):
+        bad += list(cls().get_subcircuits().keys())
+
     def rand_key():
-        return rnd.choice(keys + keys + keys + ["zz"]) if keys else "zz"
+        return rnd.choice(keys + keys + keys + [rnd.choice(bad)]) if keys else rnd.choice(bad)
 
     for _ in range(rnd.randint(1, 22)):
         k = rnd.randrange(nslots)
@@ -97,7 +104,7 @@ def gen_history(rnd, classes):
         elif r < 0.88:
             ks = [x for x in keys if rnd.random() < 0.5]
             if rnd.random() < 0.15:
-                ks.append("zz")
+                ks.append(rnd.choice(bad))
             ops.append(("resetp", k, ks))
         elif r < 0.97:
             ops.append(("copy", k, nslots, rnd.choice(["copy", "deepcopy"])))
